@@ -14,7 +14,8 @@ BATCH = 4000
 RULE = ("sequential: one resource with 1-3 throttling rules (30% of the cases two or three: identical, one field different, independent), 45% of "
         "the cases reload the rule list in the middle of the traffic, one thing changed at a time (identical list, no-op, MaxQueueingTimeMs, "
         "threshold, StatIntervalInMs incl. 0<->1000, rule added / removed / order swapped; 20% of the reloads go through an empty rule set "
-        "(ClearRules, ClearRulesOfResource, empty load) and back to the same or a changed list; a rule of another resource comes or goes so that the "
+        "(ClearRules, ClearRulesOfResource, empty load / loadres) and back to the same or a changed list; 40% of all (re)loads go through "
+        "flow.LoadRulesOfResource instead of flow.LoadRules (an identical list is then replaced by: every rule kept + one appended / order swapped); a rule of another resource comes or goes so that the "
         "reload is a real one) followed by callers at the same instant and callers one to two intervals apart; per rule (threshold from integers, fractions, 0, -0, subnormal, huge, +Inf and values that put "
         "b*I/T next to an integer; statIntervalMs incl. 0 and 2^32-1; maxQueueingTimeMs incl. 0, k*interval and k*interval+-1), 10-60 "
         "requests with batch in {0,1,2,3,floor(T),floor(T)+1,big}, arrival times non-decreasing with steps aimed at the decision boundaries "
@@ -150,8 +151,11 @@ def chain_py(ctls, now, b):
     return slept, ("wait" if slept else "pass")
 
 
-def fmt_rules(rules, other):
-    return "load " + " ".join(f"{fb(T)} {I} {mq}" for T, I, mq in rules) + (f" other={other}" if other else "")
+def fmt_rules(rules, other, perres=False):
+    """`load` = flow.LoadRules (complete rule set, `other` = a rule of another resource), `loadres` = flow.LoadRulesOfResource"""
+    if perres:
+        return ("loadres " + " ".join(f"{fb(T)} {I} {mq}" for T, I, mq in rules)).strip()
+    return ("load " + " ".join(f"{fb(T)} {I} {mq}" for T, I, mq in rules) + (f" other={other}" if other else "")).strip()
 
 
 def vary(rng, rule, field):
@@ -206,7 +210,7 @@ def _gen_seq(rng, cid, nmin, nmax, vary, pick_rule):
             rules.append(rng.choice(rules))
     reloady = rng.random() < 0.45
     other = 0
-    ops = [fmt_rules(rules, other)]
+    ops = [fmt_rules(rules, other, rng.random() < 0.3)]
     ctls = reload_py([], rules)
     arr = clk = pick_start(rng)
     ops.append(f"clock {clk}")
@@ -220,8 +224,9 @@ def _gen_seq(rng, cid, nmin, nmax, vary, pick_rule):
             if rng.random() < 0.20:
                 # through an empty rule set and back: ClearRules / ClearRulesOfResource / load of an empty list, a few unthrottled
                 # requests, then the SAME list again (same other-resource rule: DeepEqual to what was loaded before) or a changed one
-                how = rng.choice(["clear", "clear", "clearres", "empty", "empty-other"])
-                ops.append({"clear": "clear", "clearres": "clearres", "empty": "load", "empty-other": fmt_rules([], other) if other else "load"}[how])
+                how = rng.choice(["clear", "clear", "clearres", "empty", "empty-other", "empty-res"])
+                ops.append({"clear": "clear", "clearres": "clearres", "empty": "load", "empty-other": fmt_rules([], other),
+                            "empty-res": "loadres"}[how])
                 ctls = []
                 for _ in range(rng.choice([0, 0, 1, 2])):
                     ops.append("req 1")
@@ -229,9 +234,10 @@ def _gen_seq(rng, cid, nmin, nmax, vary, pick_rule):
                     f = rng.choice(["mq", "T", "I"])
                     rules = rules[:i] + [vary(rng, rules[i], f)] + rules[i + 1:]
                     how += "+" + f
-                ops.append(fmt_rules(rules, other))
+                perres = rng.random() < 0.4
+                ops.append(fmt_rules(rules, other, perres))
                 ctls = reload_py(ctls, rules)
-                kinds.append(how)
+                kinds.append(how + ("/res" if perres else ""))
                 burst = rng.choice([2, 3, 4])
                 k = 2.0
                 real = False
@@ -262,11 +268,21 @@ def _gen_seq(rng, cid, nmin, nmax, vary, pick_rule):
             else:
                 kind = "same"
             if k < 2.0:
-                if real:
+                perres = rng.random() < 0.4
+                if perres and kind == "same":
+                    # LoadRulesOfResource has no other resource to toggle: an identical list would be skipped, so keep every rule
+                    # and change the list around them (a duplicate / variant is appended, or the order is swapped)
+                    if len(rules) < 3:
+                        kind = "add"
+                        rules = rules + [rng.choice([rules[i], vary(rng, rules[i], "mq"), vary(rng, rules[i], "T")])]
+                    else:
+                        kind = "swap"
+                        rules = rules[::-1]
+                if real and not perres:
                     other = 1 - other if other in (0, 1) else 0      # another resource's rule comes or goes: the reload is a real one
-                ops.append(fmt_rules(rules, other))
+                ops.append(fmt_rules(rules, other, perres))
                 ctls = reload_py(ctls, rules)
-                kinds.append(kind)
+                kinds.append(kind + ("/res" if perres else ""))
                 burst = rng.choice([2, 3, 4])
         T, I_ms, mq = rules[rng.randrange(len(rules))]
         I = (I_ms or 1000) * MS
